@@ -58,6 +58,7 @@ type c17Input struct {
 	CfgMode string                    `json:"cfgMode"` // ok | no-configmap | no-key | garbage
 	Config  configv1beta1.KatibConfig `json:"config"`
 	S       c17Sug                    `json:"suggestion"`
+	Echo    bool                      `json:"echo,omitempty"` // the labels echo keys of the generated objects
 }
 
 type c17 struct{}
@@ -266,7 +267,42 @@ func (c17) Gen(r *rand.Rand, i, n int) any {
 				configv1beta1.EarlyStoppingConfig{AlgorithmName: *s.ES, Image: "docker.io/kubeflowkatib/earlystopping-" + *s.ES + ":v0.17"})
 		}
 	}
+	// echo: every fourth suggestion carries, with a value of its own, label keys that the composer itself puts on the objects
+	// it generates for this very input (learned by composing once): whatever keys the generated objects use, a user's
+	// label with the same key must not break the fit between selectors and pods
+	if r.Intn(4) == 0 {
+		c17OutKeys = nil
+		_ = c17{}.Run(in)
+		for _, k := range c17OutKeys {
+			if _, has := s.Labels[k]; !has && r.Intn(3) > 0 {
+				if s.Labels == nil {
+					s.Labels = map[string]string{}
+				}
+				s.Labels[k] = "user-set"
+				in.Echo = true
+			}
+		}
+	}
 	return in
+}
+
+// label keys seen on the objects generated by the last Run
+var c17OutKeys []string
+
+func c17NoteKeys(ms ...map[string]string) {
+	seen := map[string]bool{}
+	for _, k := range c17OutKeys {
+		seen[k] = true
+	}
+	for _, m := range ms {
+		for k := range m {
+			if !seen[k] {
+				seen[k] = true
+				c17OutKeys = append(c17OutKeys, k)
+			}
+		}
+	}
+	sort.Strings(c17OutKeys)
 }
 
 func (c17) Decode(raw json.RawMessage) (any, error) {
@@ -639,11 +675,13 @@ func (c17) Run(input any) kit.Case {
 	volCoq, o3 := outcome(p3, e3, readable, func() string { return t.coqVolume(pvc, pv) })
 	rbacCoq, o4 := outcome(p4, e4, readable, func() string { return coqRBAC(sa, ro, rb) })
 	obs["DesiredDeployment"], obs["DesiredService"], obs["DesiredVolume"], obs["DesiredRBAC"] = o1, o2, o3, o4
-	if e1 == nil && p1 == "" {
+	if e1 == nil && p1 == "" && dep != nil {
 		obs["deployment"] = dep
+		c17NoteKeys(dep.Labels, labelsOf(dep.Spec.Selector), dep.Spec.Template.Labels)
 	}
-	if e2 == nil && p2 == "" {
+	if e2 == nil && p2 == "" && svc != nil {
 		obs["service"] = svc
+		c17NoteKeys(svc.Labels, svc.Spec.Selector)
 	}
 	obs["algorithmEndpoint"], obs["earlyStoppingEndpoint"] = algE, esE
 	for _, p := range []string{p1, p2, p3, p4, p5} {
@@ -707,6 +745,9 @@ func (c17) Run(input any) kit.Case {
 
 	// distribution and non-triviality
 	esOn := in.S.ES != nil && *in.S.ES != ""
+	if in.Echo {
+		c.Tags = append(c.Tags, "labels-echo-generated-keys")
+	}
 	switch {
 	case in.S.ES == nil:
 		c.Tags = append(c.Tags, "es:off")
